@@ -624,3 +624,34 @@ def c10_flags(text, config):
         if word in low and not any(f == flag and word in c.lower() for f, c in d.w_flag_lines):
             return True, f'{word!r} present but no {flag!r} flag line contains it: {d.w_flag_lines}'
     return False, f'flags ok: {d.w_flags} {d.e_flags}'
+
+
+# ------------------------------------------------------------------ C09
+@replay('c09_tracts')
+def c09_tracts(text, config):
+    import pytrs
+    from spec import trs_spec as SP
+    d = pytrs.PLSSDesc(text, config=config, source='SRC')
+    for i, t in enumerate(d.tracts):
+        trs = t.trs
+        if not SP.is_standard(trs):
+            return True, f'tract {i} has Twp/Rge/Sec {trs!r}, not in the standard form'
+        dd = SP.decompose(trs)
+        if dd['twp_undef'] or dd['rge_undef'] or dd['sec_undef']:
+            return True, f'tract {i} has the undefined placeholder: {trs!r}'
+        for a in ('twp', 'rge', 'sec', 'twp_num', 'twp_ns', 'rge_num', 'rge_ew', 'sec_num', 'twprge'):
+            if getattr(t, a) != dd[a]:
+                return True, f'tract {i} ({trs!r}).{a} = {getattr(t, a)!r}, expected {dd[a]!r}'
+        if t.orig_index != i or t.orig_desc != text or t.source != 'SRC':
+            return True, f'tract {i}: orig_index={t.orig_index}, source={t.source!r}, orig_desc ok={t.orig_desc == text}'
+    return False, f'{[t.trs for t in d.tracts]}'
+
+
+@replay('c09_props')
+def c09_props(s):
+    import pytrs
+    from spec import trs_spec as SP
+    t = pytrs.Tract('NE/4', trs=s)
+    d = SP.decompose(s)
+    diffs = {k: (getattr(t, k), d[k]) for k in ('trs', 'twp', 'rge', 'sec', 'twp_num', 'twp_ns', 'rge_num', 'rge_ew', 'sec_num', 'twprge') if getattr(t, k) != d[k]}
+    return bool(diffs), f'Tract(trs={s!r}): {diffs}'
